@@ -1364,13 +1364,36 @@ def check_C08(res):
     n = 120 if res.tier == "quick" else 2500
     prof = {"weights": dict(MODE=40, JOIN=10, PART=2, KICK=2, NICK=2, PRIVMSG=2, TOPIC=1, INVITE=1, NAMES=1, MISC=0.2, BAD=1.5),
             "max_conns": 6, "initial_conns": 4}
-    r = l2_campaign(res, "C08", n, 50, prof, traces=sweep, oracle=mode_oracle)
+    # "enforced by JOIN, PRIVMSG, TOPIC, KICK and INVITE from then on": ranks and flags granted by MODE, then used
+    rng = random.Random(res.seed + 8)
+    for k2 in range(4 if res.tier == "quick" else 40):
+        t = Trace("c08-enforced-%d" % k2, Config())
+        names = ["alice", "bob", "carol", "dave", "erin", "frank"]
+        for c, n2 in enumerate(names):
+            t.register(c, n2)
+        for c in range(5):
+            t.line(c, "JOIN #m")
+        t.line(0, "MODE #m +o bob")
+        t.line(0, "MODE #m +hh carol dave")
+        t.line(0, "MODE #m +v erin")
+        t.line(0, rng.choice(["MODE #m +a bob", "MODE #m +oh erin erin", "MODE #m +t", "MODE #m +m", "MODE #m +i", "MODE #m +k key", "MODE #m +l 5"]))
+        order = [(2, "bob"), (2, "dave"), (2, "erin"), (3, "carol"), (4, "bob"), (1, "carol"), (2, "alice"), (1, "alice"), (3, "bob")]
+        rng.shuffle(order)
+        for actor, victim in order[:6]:
+            t.line(actor, rng.choice(["KICK #m %s :out" % victim, "TOPIC #m :by %s" % names[actor], "INVITE frank #m", "PRIVMSG #m :hi from %s" % names[actor]]))
+            t.line(5, "JOIN #m")
+            t.line(0, "NAMES #m")
+        sweep.append(t)
+
+    def orc(t, steps):
+        return mode_oracle(t, steps) + rank_oracle(t, steps) + join_oracle(t, steps) + msg_oracle(t, steps)
+    r = l2_campaign(res, "C08", n, 50, prof, traces=sweep, oracle=orc)
     res.coverage.update({
         "evaluations": r["steps"], "distinct_nontrivial": sum(len(t.events) for t in sweep),
         "rule": "sweep: 32 actor rank subsets x 15 mode letters x {+,-} x target in {voiced peer, founder, self, non-member, unregistered} (flag/key/limit letters once per sign) through a preconfigured channel, "
                 "followed by sign-switching strings (-i+i, +l 5 -l, +l-l 5, -lk, +k a -k +k b, ...) (quick: a seed-selected quarter of the actor subsets; thorough: all); distinct = single-command cells; plus "
                 "%d seeded random histories with multi-letter strings; oracle on the implementation: every changed field needs the rank the property names, nothing outside the channel's mode fields changes, each "
-                "change is announced exactly once to every member, and replaying the announced string over the old record reproduces the new record" % n,
+                "change is announced exactly once to every member, and replaying the announced string over the old record reproduces the new record; enforcement afterwards (KICK / TOPIC / INVITE by the rank rule, JOIN by the admission rule, PRIVMSG by the speaking rule) on histories that first grant ranks and flags by MODE" % n,
         "exhaustive": res.tier == "thorough",
         "traces_validated_against_impl": r["traces"],
         "samples": [sweep[1].describe()["events"][10:16], sweep[1].meta],
@@ -1526,7 +1549,10 @@ def c02_sweep(res):
         k += 1
         if res.tier == "quick" and k % 3 != res.seed % 3:
             continue
-        for cfgname, cfg in (("plain", Config()), ("pw", Config(password="secret1"))):
+        for cfgname, cfg in (("plain", Config()), ("pw", Config(password="secret1")), ("twin", Config()), ("twinquit", Config())):
+            # "twin": both connections present the SAME user name (hence the same nick!user@host once both ask for zed)
+            # and the loser just goes away, still holding the nick it asked for
+            twin = cfgname.startswith("twin")
             t = Trace("c02-%d-%s" % (k, cfgname), cfg)
             t.register(2, "carol", password=cfg.password)
             t.line(2, "JOIN #c")
@@ -1538,14 +1564,21 @@ def c02_sweep(res):
             closed = set()
             for who, idx in perm:
                 cid = 0 if who == "a" else 1
-                act = (acts_a if who == "a" else acts_b)[idx]
+                act = (acts_a if who == "a" or twin else acts_b)[idx]
                 if cid in closed:
                     continue
                 if act == "X":
-                    t.line(cid, "JOIN #c")
-                    t.line(cid, "NICK evil")
-                    t.line(cid, "PRIVMSG #c :I am " + who)
-                    t.close(cid)
+                    if twin:
+                        t.line(cid, "PRIVMSG #c :I am " + who)
+                        if cfgname == "twinquit":
+                            t.line(cid, "QUIT :bye")
+                        else:
+                            t.close(cid)
+                    else:
+                        t.line(cid, "JOIN #c")
+                        t.line(cid, "NICK evil")
+                        t.line(cid, "PRIVMSG #c :I am " + who)
+                        t.close(cid)
                     closed.add(cid)
                 else:
                     t.line(cid, act)
@@ -1634,19 +1667,28 @@ def views_oracle(t, steps):
                                       or set(prev["users"][n]["channels"]) & set(me["channels"]))
                         if got != exp:
                             fails.append(("WHO %s seen by %s lists %r, expected %r" % (chn, actor, sorted(got), sorted(exp)), {"step": s["k"]}))
-                m = re.match(r"^WHOIS ([^ ,*?#&]+)$", ev[2])
-                if m and m.group(1) in prev["users"]:
-                    n = m.group(1)
-                    u = prev["users"][n]
-                    hidden = "i" in u["modes"] and not (set(u["channels"]) & set(me["channels"]))
-                    got = set()
+                m = re.match(r"^WHOIS (\S+)$", ev[2])
+                if m:
+                    # one nick, a comma list or wildcard masks: every answered user's 319 lines must carry exactly its own
+                    # non-secret channels (nothing for an invisible user sharing no channel with the asker)
+                    per = collections.defaultdict(set)
+                    answered = set()
                     for l in mine:
-                        mm = re.match(r"^:\S+ 319 \S+ \S+ :(.*)$", l)
+                        mm = re.match(r"^:\S+ 311 \S+ (\S+) ", l)
                         if mm:
-                            got |= set(strip_rank(x, prev["channels"]) for x in mm.group(1).split(" ") if x)
-                    exp = set() if hidden else set(c for c in u["channels"] if "s" not in prev["channels"][c]["flags"])
-                    if got != exp:
-                        fails.append(("WHOIS %s seen by %s lists channels %r, expected %r" % (n, actor, sorted(got), sorted(exp)), {"step": s["k"]}))
+                            answered.add(mm.group(1))
+                        mm = re.match(r"^:\S+ 319 \S+ (\S+) :(.*)$", l)
+                        if mm:
+                            per[mm.group(1)] |= set(strip_rank(x, prev["channels"]) for x in mm.group(2).split(" ") if x)
+                            answered.add(mm.group(1))
+                    for n in sorted(answered):
+                        u = prev["users"].get(n)
+                        if u is None:
+                            continue
+                        hidden = "i" in u["modes"] and not (set(u["channels"]) & set(me["channels"]))
+                        exp = set() if hidden else set(c for c in u["channels"] if "s" not in prev["channels"][c]["flags"])
+                        if per.get(n, set()) != exp:
+                            fails.append(("WHOIS %s seen by %s lists channels %r, expected %r" % (n, actor, sorted(per.get(n, set())), sorted(exp)), {"step": s["k"]}))
                 m = re.match(r"^PART ([#&][^ ,]*)(?: :(.*))?$", ev[2])
                 if m:
                     chn = m.group(1)
@@ -1686,7 +1728,8 @@ class ProbingGen(gen.Gen):
                 ch = self.rng.choice(gen.CHANS[:5])
                 for _ in range(2):
                     c = self.rng.choice(regs)
-                    self.t.line(c, self.rng.choice(["NAMES " + ch, "WHO " + ch, "WHOIS " + self.some_nick()]))
+                    self.t.line(c, self.rng.choice(["NAMES " + ch, "WHO " + ch, "WHOIS " + self.some_nick(),
+                                                    "WHOIS %s,%s" % (self.some_nick(), self.some_nick()), "WHOIS *"]))
 
 
 def probing_traces(rng, prefix, n, length, profile):
@@ -2058,8 +2101,8 @@ def c06_sweep(res):
     ways = ["QUIT", "CLOSE", "MIDLINE", "KILL", "BADUTF8", "TOOLONG", "CAPEND_QUIT", "CAPEND_CLOSE", "DIE"]
     k = 0
     for way in ways:
-        for variant in range(4):
-            cfg = Config(operators=[dict(name="admin", password="operpass")], default_modes="w" if variant == 1 else "",
+        for variant in range(6):
+            cfg = Config(operators=[dict(name="admin", password="operpass")], default_modes="w" if variant == 1 else "O" if variant >= 4 else "",
                          channels=[dict(name="#pre", topic="P", operators=["victim"])])
             t = Trace("c06-%s-%d" % (way, variant), cfg)
             t.register(0, "victim")
@@ -2083,6 +2126,11 @@ def c06_sweep(res):
             t.line(0, "INVITE friend #solo")
             if variant == 2:
                 t.line(0, "OPER admin operpass")
+            if variant >= 4:
+                # local operator by default, global operator by OPER, then one of the two flags is dropped again
+                t.line(0, "OPER admin operpass")
+                t.line(0, "MODE victim -o" if variant == 4 else "MODE victim -O")
+                t.line(1, "LUSERS")
             if variant == 3:
                 t.line(0, "NICK victim2")
                 t.line(0, "NICK victim")
@@ -2281,11 +2329,12 @@ def nick_oracle(t, steps):
         d = s.get("dump")
         if ev[0] == "L" and isinstance(ev[2], str) and prev is not None and d is not None and not s.get("panics"):
             actor = cm.nick.get(ev[1])
-            m = re.match(r"^(?i:NICK) :?(\S*)$", ev[2])
+            tok = py_tokenize(ev[2])
+            m = tok[0] == "OK" and tok[2].upper() == "NICK" and len(tok[3]) >= 1
             if m and actor in prev["users"]:
-                new = m.group(1)
+                new = tok[3][0]     # as parsed: a trailing parameter may carry blanks
                 mine = (s.get("out") or {}).get(str(ev[1]), [])
-                valid = new != "" and not any(c in new for c in ".,:") and new[0] not in "#&"
+                valid = py_valid_username(new)
                 if not valid or new == actor or new in prev["users"]:
                     dd = irc.diff_dump(prev, d, "state")
                     if dd:
@@ -2348,7 +2397,8 @@ def c15_sweep(res):
         if variant == 4:
             t.line(0, "PART #own")
             t.line(0, "MODE #shared -qo+v mover mover mover")
-        for new in ["mover2", "mover", "friend", "claimed", "bad.nick", "#chan", "Mover2", "mover2", "mover", "x", "mover"]:
+        for new in ["mover2", "mover", "friend", "claimed", "bad.nick", "#chan", "Mover2", "mover2", "mover", ":padded ", ": padded", ":pad\tded", ":two words",
+                    ":", "x", "mover"]:
             t.line(0, "NICK " + new)
             t.line(1, "PRIVMSG +#shared,@#shared,#shared :ping")
             t.line(2, "WHOWAS mover")
@@ -2965,6 +3015,28 @@ def check_C13(res):
                 res.violation("the line %r %s" % (l, bad), {"kind": "pure", "case": "P " + hx(l), "line": l, "impl": a, "model": b}, found=True)
         elif a != b:
             tie_fail += 1
+    # B2. the parameter validators behind "invalid parameter": names and channel names against the rules as stated
+    #     (a name is non-empty, has no ASCII blank of any kind anywhere, no '.', ',', ':' and does not start with '#' or '&';
+    #      a channel name is non-empty, starts with '#' or '&' and has no blank, ',' or ':')
+    blanks = [" ", "\t", "\n", "\x0c", "\r"]
+    names = ["", "a", "bob", "é", "a.b", "a,b", "a:b", "#a", "&a", "a#b", "a!b@c", "*", "[x]"]
+    for w in blanks:
+        names += ["a" + w + "b", w + "bob", "bob" + w, w, "a" + w, w + w + "x", "#a" + w + "b", "#a" + w, w + "#a"]
+    names += ["#", "&", "##", "#a,b", "#a:b", "#é", "#a.b"]
+    for _ in range(300 if res.tier == "quick" else 5000):
+        names.append("".join(rng.choice("ab#&.,: \t\r\x0cé*") for _ in range(rng.randint(0, 5))))
+    names = list(dict.fromkeys(names))
+    for kind, rule in (("username", py_valid_username), ("channel", py_valid_channel)):
+        vl = ["V %s %s" % (kind, hx(x)) for x in names]
+        vi, vm = run_pure(vl), run_pure(vl, model=True)
+        for x, a, b in zip(names, vi, vm):
+            if (a == "true") != rule(x):
+                spec_fail += 1
+                if spec_fail <= 6:
+                    res.violation("validate_%s(%r) = %s; by the naming rules it is %s" % (kind, x, a, "valid" if rule(x) else "invalid"),
+                                  {"kind": "pure", "case": "V %s %s" % (kind, hx(x)), "name": x, "impl": a, "model": b}, found=True)
+            elif a != b:
+                tie_fail += 1
     # C. serialise with a source and re-parse with the real functions: same command and parameters
     srcs = ["n!u@h", "é!ü@漢", "srv.irc"]
     okl = [(l, tok) for l, tok in zip(lines, toks) if tok[0] == "OK"]
@@ -3230,7 +3302,7 @@ class Server:
         self.proc = subprocess.Popen([SERVER_BIN, "-c", self.path] + list(cli_args), stdout=subprocess.PIPE, stderr=subprocess.STDOUT)
         self.listening = False
         t0 = _time.time()
-        while _time.time() - t0 < 4:
+        while _time.time() - t0 < 10:
             if self.proc.poll() is not None:
                 break
             try:
@@ -3422,107 +3494,131 @@ def check_C20(res):
     # the real binary: exit status at start-up, the welcome burst, -g, plain vs TLS
     okb, outb = build_server_binary()
     started = []
-    if not okb:
-        res.violation("the server binary does not build", {"log": outb}, found=False)
-    else:
-        base = dict(name="cfg.name.irc", admin_info="Admin", info="Info", motd="MOTD-from-config", network="NetFromConfig", channels=["#preset"], max_joins=1,
-                    default_modes="iw")
-        variants = [("valid", base, [], True), ("no dot", dict(base, name="nodot"), [], False), ("bad hash", dict(base, password="xxxx"), [], False),
-                    ("bad oper", dict(base, operators=[dict(name="o p", password=GOOD_HASH)]), [], False),
-                    ("bad user nick", dict(base, users=[dict(name="u", nick="#n")]), [], False),
-                    ("bad channel", dict(base, channels=["nochan"]), [], False),
-                    ("cli cert only", base, ["-C", "/repo/test_data/cert.crt"], False),
-                    ("cli key only", base, ["-K", "/repo/test_data/cert_key.crt"], False),
-                    ("cli name override", dict(base, name="nodot"), ["-n", "from.cli"], True),
-                    ("cli name breaks", base, ["-n", "nodotcli"], False),
-                    ("missing motd", dict(base, motd=None), [], False)]
-        for label, d, args, want in variants:
-            sv = Server(d, args)
-            lines = []
-            if sv.listening:
-                try:
-                    c = Client(sv.port)
-                    c.send("NICK alice")
-                    c.send("USER alice 8 * :Alice")
-                    lines = c.read_until(lambda x: " 221 " in x)
-                    c.send("JOIN #preset,#second")
-                    lines += c.read_until(lambda x: " 405 " in x or " 366 " in x and "#second" in x, tmo=1.5)
-                    c.close()
-                except OSError:
-                    pass
-            rc, out = sv.stop()
-            started.append({"case": label, "listening": sv.listening, "exit": rc, "welcome_lines": len(lines)})
-            if sv.listening != want:
-                res.violation("start-up with configuration %r: the server %s" % (label, "serves although the configuration is invalid" if sv.listening else "does not start: " + out[-200:]),
-                              {"kind": "binary", "case": label, "config": d, "args": args, "output": out[-1500:]}, found=True)
-            elif not want and (rc in (0, None, -9)):
-                res.violation("start-up with invalid configuration %r does not exit with an error status (exit %r)" % (label, rc),
-                              {"kind": "binary", "case": label, "output": out[-1500:]}, found=True)
-            elif want:
-                name = "from.cli" if "-n" in args else d["name"]
-                txt = "\n".join(lines)
-                probs = []
-                if not lines or not all(l.startswith(":" + name + " ") or l.startswith(":alice") for l in lines):
-                    probs.append("lines not prefixed by the effective server name %r" % name)
-                if "NetFromConfig" not in txt:
-                    probs.append("network name absent from the welcome burst")
-                if ":MOTD-from-config" not in txt:
-                    probs.append("configured MOTD absent")
-                if not re.search(r" 221 alice \+[iw]{2}$", txt, re.M):
-                    probs.append("default user modes +iw not applied")
-                if " 405 " not in txt:
-                    probs.append("max_joins = 1 not enforced (no 405 for the second channel)")
-                if probs:
-                    res.violation("a started server does not follow its configuration: " + "; ".join(probs),
-                                  {"kind": "binary", "case": label, "config": d, "args": args, "lines": lines[-40:]}, found=True)
-        # -g prints a hash that accepts exactly its password
-        pw = "pässword 1"
-        g = subprocess.run([SERVER_BIN, "-g", "-P", pw], capture_output=True, text=True)
-        m = re.search(r"Password Hash: (\S+)", g.stdout + g.stderr)
-        if not m:
-            res.violation("-g -P does not print a password hash", {"kind": "binary", "output": (g.stdout + g.stderr)[-500:]}, found=True)
-        else:
-            sv = Server(dict(base, password=m.group(1)))
-            verdict = {}
-            for tryp in (pw, pw + "x", None):
-                c = Client(sv.port)
-                if tryp is not None:
-                    c.send("PASS :" + tryp)
-                c.send("NICK n%d" % len(verdict))
-                c.send("USER u 8 * :U")
-                ls = c.read_until(lambda x: " 001 " in x or " 464 " in x or x.startswith("ERROR"), tmo=6)
-                verdict[tryp] = any(" 001 " in x for x in ls)
-                c.close()
-            sv.stop()
-            if verdict != {pw: True, pw + "x": False, None: False}:
-                res.violation("a server configured with the hash printed by -g for %r accepts %r" % (pw, verdict), {"kind": "binary"}, found=True)
-        # TLS changes the transport only
-        tls_d = dict(base, max_joins=None, tls=dict(cert_file="/repo/test_data/cert.crt", cert_key_file="/repo/test_data/cert_key.crt"))
-        views = {}
-        for mode, d in (("plain", dict(base, max_joins=None)), ("tls", tls_d)):
-            sv = Server(d, tag="c20-" + mode)
-            try:
-                views[mode] = c20_script(sv.port, mode == "tls") if sv.listening else None
-            except Exception as e:
-                views[mode] = "client error: %r" % (e,)
-            rc, out = sv.stop()
-            if not sv.listening:
-                res.violation("the server does not start in %s mode: %s" % (mode, out[-300:]), {"kind": "binary", "mode": mode}, found=True)
+    class _Collect:
+        def __init__(self):
+            self.violations = []
 
-        def canon(v):
-            return {k: [irc.canon_line(x, "cfg.name.irc") for x in ls if " 671 " not in x and not re.match(r"^:\S+ PONG \S+ :b\d+$", x)] for k, ls in v.items()}
-        if isinstance(views.get("plain"), dict) and isinstance(views.get("tls"), dict):
-            cp, ct = canon(views["plain"]), canon(views["tls"])
-            cp = {k: irc.canon_lines(v, "cfg.name.irc") for k, v in cp.items()}
-            ct = {k: irc.canon_lines(v, "cfg.name.irc") for k, v in ct.items()}
-            if cp != ct:
-                import difflib
-                df = [x for k in cp for x in difflib.unified_diff(cp[k], ct.get(k, []), lineterm="", n=0)][:20]
-                res.violation("the same client script gives a different transcript over TLS than over plain TCP", {"kind": "binary", "diff": df}, found=True)
-            started.append({"case": "plain vs TLS", "lines_compared": sum(len(v) for v in cp.values())})
-        elif okb:
-            res.violation("plain / TLS transcripts could not be taken: %r" % ({k: (v if not isinstance(v, dict) else "ok") for k, v in views.items()},),
-                          {"kind": "binary"}, found=False)
+        def violation(self, what, replay, found=True):
+            self.violations.append({"what": what, "replay": replay, "found": found})
+
+    def binary_part(rr, started):
+        if not okb:
+            rr.violation("the server binary does not build", {"log": outb}, found=False)
+        else:
+            base = dict(name="cfg.name.irc", admin_info="Admin", info="Info", motd="MOTD-from-config", network="NetFromConfig", channels=["#preset"], max_joins=1,
+                        default_modes="iw")
+            variants = [("valid", base, [], True), ("no dot", dict(base, name="nodot"), [], False), ("bad hash", dict(base, password="xxxx"), [], False),
+                        ("bad oper", dict(base, operators=[dict(name="o p", password=GOOD_HASH)]), [], False),
+                        ("bad user nick", dict(base, users=[dict(name="u", nick="#n")]), [], False),
+                        ("bad channel", dict(base, channels=["nochan"]), [], False),
+                        ("cli cert only", base, ["-C", "/repo/test_data/cert.crt"], False),
+                        ("cli key only", base, ["-K", "/repo/test_data/cert_key.crt"], False),
+                        ("cli name override", dict(base, name="nodot"), ["-n", "from.cli"], True),
+                        ("cli name breaks", base, ["-n", "nodotcli"], False),
+                        ("missing motd", dict(base, motd=None), [], False)]
+            for label, d, args, want in variants:
+                sv = Server(d, args)
+                lines = []
+                if sv.listening:
+                    try:
+                        c = Client(sv.port)
+                        c.send("NICK alice")
+                        c.send("USER alice 8 * :Alice")
+                        lines = c.read_until(lambda x: " 221 " in x)
+                        c.send("JOIN #preset,#second")
+                        lines += c.read_until(lambda x: " 405 " in x or " 366 " in x and "#second" in x, tmo=1.5)
+                        c.close()
+                    except OSError:
+                        pass
+                rc, out = sv.stop()
+                started.append({"case": label, "listening": sv.listening, "exit": rc, "welcome_lines": len(lines)})
+                if sv.listening != want:
+                    rr.violation("start-up with configuration %r: the server %s" % (label, "serves although the configuration is invalid" if sv.listening else "does not start: " + out[-200:]),
+                                  {"kind": "binary", "case": label, "config": d, "args": args, "output": out[-1500:]}, found=True)
+                elif not want and (rc in (0, None, -9)):
+                    rr.violation("start-up with invalid configuration %r does not exit with an error status (exit %r)" % (label, rc),
+                                  {"kind": "binary", "case": label, "output": out[-1500:]}, found=True)
+                elif want:
+                    name = "from.cli" if "-n" in args else d["name"]
+                    txt = "\n".join(lines)
+                    probs = []
+                    if not lines or not all(l.startswith(":" + name + " ") or l.startswith(":alice") for l in lines):
+                        probs.append("lines not prefixed by the effective server name %r" % name)
+                    if "NetFromConfig" not in txt:
+                        probs.append("network name absent from the welcome burst")
+                    if ":MOTD-from-config" not in txt:
+                        probs.append("configured MOTD absent")
+                    if not re.search(r" 221 alice \+[iw]{2}$", txt, re.M):
+                        probs.append("default user modes +iw not applied")
+                    if " 405 " not in txt:
+                        probs.append("max_joins = 1 not enforced (no 405 for the second channel)")
+                    if probs:
+                        rr.violation("a started server does not follow its configuration: " + "; ".join(probs),
+                                      {"kind": "binary", "case": label, "config": d, "args": args, "lines": lines[-40:]}, found=True)
+            # -g prints a hash that accepts exactly its password
+            pw = "pässword 1"
+            g = subprocess.run([SERVER_BIN, "-g", "-P", pw], capture_output=True, text=True)
+            m = re.search(r"Password Hash: (\S+)", g.stdout + g.stderr)
+            if not m:
+                rr.violation("-g -P does not print a password hash", {"kind": "binary", "output": (g.stdout + g.stderr)[-500:]}, found=True)
+            else:
+                sv = Server(dict(base, password=m.group(1)))
+                verdict = {}
+                for tryp in (pw, pw + "x", None):
+                    c = Client(sv.port)
+                    if tryp is not None:
+                        c.send("PASS :" + tryp)
+                    c.send("NICK n%d" % len(verdict))
+                    c.send("USER u 8 * :U")
+                    ls = c.read_until(lambda x: " 001 " in x or " 464 " in x or x.startswith("ERROR"), tmo=6)
+                    verdict[tryp] = any(" 001 " in x for x in ls)
+                    c.close()
+                sv.stop()
+                if verdict != {pw: True, pw + "x": False, None: False}:
+                    rr.violation("a server configured with the hash printed by -g for %r accepts %r" % (pw, verdict), {"kind": "binary"}, found=True)
+            # TLS changes the transport only
+            tls_d = dict(base, max_joins=None, tls=dict(cert_file="/repo/test_data/cert.crt", cert_key_file="/repo/test_data/cert_key.crt"))
+            views = {}
+            for mode, d in (("plain", dict(base, max_joins=None)), ("tls", tls_d)):
+                sv = Server(d, tag="c20-" + mode)
+                try:
+                    views[mode] = c20_script(sv.port, mode == "tls") if sv.listening else None
+                except Exception as e:
+                    views[mode] = "client error: %r" % (e,)
+                rc, out = sv.stop()
+                if not sv.listening:
+                    rr.violation("the server does not start in %s mode: %s" % (mode, out[-300:]), {"kind": "binary", "mode": mode}, found=True)
+
+            def canon(v):
+                return {k: [irc.canon_line(x, "cfg.name.irc") for x in ls if " 671 " not in x and not re.match(r"^:\S+ PONG \S+ :b\d+$", x)] for k, ls in v.items()}
+            if isinstance(views.get("plain"), dict) and isinstance(views.get("tls"), dict):
+                cp, ct = canon(views["plain"]), canon(views["tls"])
+                cp = {k: irc.canon_lines(v, "cfg.name.irc") for k, v in cp.items()}
+                ct = {k: irc.canon_lines(v, "cfg.name.irc") for k, v in ct.items()}
+                if cp != ct:
+                    import difflib
+                    df = [x for k in cp for x in difflib.unified_diff(cp[k], ct.get(k, []), lineterm="", n=0)][:20]
+                    rr.violation("the same client script gives a different transcript over TLS than over plain TCP", {"kind": "binary", "diff": df}, found=True)
+                started.append({"case": "plain vs TLS", "lines_compared": sum(len(v) for v in cp.values())})
+            elif okb:
+                rr.violation("plain / TLS transcripts could not be taken: %r" % ({k: (v if not isinstance(v, dict) else "ok") for k, v in views.items()},),
+                              {"kind": "binary"}, found=False)
+
+    # runs of the real binary depend on wall-clock waits (start-up, replies): an objection is believed only if
+    # it is raised again when the whole binary part is run a second time
+    first = _Collect()
+    binary_part(first, started)
+    binary_rerun = 0
+    if first.violations:
+        binary_rerun = len(first.violations)
+        sig = lambda v: re.sub(r"\d+", "#", v["what"])[:70]
+        second = _Collect()
+        started = []
+        binary_part(second, started)
+        seen = set(sig(v) for v in first.violations)
+        for v in second.violations:
+            if sig(v) in seen:
+                res.violations.append(v)
     # behaviour under random configurations, against the model
     prof = {"weights": dict(JOIN=14, PART=8, OPER=5, PRIVMSG=4, MODE=4, NICK=2, MISC=2, WHOIS=2, UMODE=2), "p_users": 0.6, "p_operators": 0.7, "p_channels": 0.8,
             "p_default_mode": 0.6, "p_max_joins": 0.7, "p_password": 0.4}
@@ -3541,7 +3637,7 @@ def check_C20(res):
                 "%d random-configuration histories against the model with a welcome-burst oracle" % (len(cases), len(pws), len(started), ntr),
         "traces_validated_against_impl": r["traces"], "validation_outcomes": dict(reasons),
         "samples": [{"config": cases[0][0], "cli": cases[0][1], "impl": fi[0][:160]}, started[:3]],
-        "binary_cases": started, "l2": r["summary"]})
+        "binary_cases": started, "binary_objections_rerun": binary_rerun, "l2": r["summary"]})
     res.assumptions = ["TOML syntax and field types are serde's: only accepted/rejected is compared for files that do not deserialize",
                        "671 (secure connection) lines are excluded from the plain/TLS comparison: they describe the transport"]
 
@@ -3959,230 +4055,287 @@ def check_C18(res):
         res.violation("the server binary does not build", {"log": outb}, found=False)
         return
     shape, sdiff = lock_shape_scan()
-    rounds = 6 if res.tier == "quick" else 60
-    N = 24
-    stats = collections.Counter()
-    d = dict(name="irc.irc", admin_info="A", info="I", motd="M", network="N")
-    port = free_port()
-    path = os.path.join(irc.BUILD, "scratch", "c18-%d.toml" % port)
-    toml = c20_toml(dict(d, port=port)) + "".join(
-        '[[channels]]\nname = "#lim%d"\n[channels.modes]\ninvite_only = false\nmoderated = false\nsecret = false\nprotected_topic = false\nno_external_messages = false\nclient_limit = 3\n' % k
-        for k in range(rounds))
-    open(path, "w").write(toml)
-    proc = subprocess.Popen([SERVER_BIN, "-c", path], stdout=subprocess.DEVNULL, stderr=subprocess.PIPE)
-    t0 = _time.time()
-    while _time.time() - t0 < 4:
-        try:
-            socket.create_connection(("127.0.0.1", port), timeout=0.2).close()
-            break
-        except OSError:
-            _time.sleep(0.03)
-    found = []
+    class _Collect:
+        def __init__(self):
+            self.violations = []
 
-    def bad(what, detail):
-        found.append(what)
-        if len(found) <= 4:
-            res.violation(what, dict({"kind": "burst"}, **detail), found=True)
-    stop_hogs = threading.Event()
+        def violation(self, what, replay, found=True):
+            self.violations.append({"what": what, "replay": replay, "found": found})
 
-    def hog(k):
-        # ordinary clients that keep the state lock busy, so that waiting acquisitions are granted together
-        try:
-            c = BConn(port)
-            c.send("NICK hog%d\r\nUSER h 8 * :h\r\n" % k)
-            c.wait_for(lambda l: " 221 " in l)
-            i = 0
-            while not stop_hogs.is_set():
-                i += 1
-                c.send("".join("JOIN #h%d_%d\r\nPART #h%d_%d\r\n" % (k, j, k, j) for j in range(20)))
-                c.pump(0.01)
-                c.lines = c.lines[-50:]
-            c.close()
-        except Exception:
-            pass
-    hogs = [threading.Thread(target=hog, args=(k,)) for k in range(4)]
-    for h in hogs:
-        h.start()
-    try:
-        everyone = []
-        for rd in range(rounds):
-            # A. simultaneous claims to one nickname
-            nick = "racer%d" % rd
-            cs = [BConn(port) for _ in range(N)]
-            for c in cs:
-                c.send("NICK %s\r\n" % nick)
-            pump_all(cs, quiet=0.1, tmo=1.0)
-            for c in cs:
-                c.send("USER u 8 * :u\r\n")
-            for c in cs:
-                c.wait_for(lambda l: " 001 " in l or " 433 " in l, tmo=6)
-            pump_all(cs, quiet=0.15, tmo=2.0)
-            welcomed = [c for c in cs if any(" 001 " in l for l in c.lines)]
-            refused = [c for c in cs if any(" 433 " in l for l in c.lines)]
-            stats["nick_claims"] += N
-            if len(welcomed) != 1 or len(welcomed) + len(refused) != N:
-                bad("of %d simultaneous claims to the nickname %s, %d were welcomed and %d refused (exactly one must win)" % (N, nick, len(welcomed), len(refused)),
-                    {"round": rd, "sample": [c.lines[:3] for c in cs[:4]]})
-            # the losers register under their own names and everybody joins one new channel at once
-            for k, c in enumerate(cs):
-                if c not in welcomed:
-                    c.send("NICK r%d_%d\r\n" % (rd, k))
-            for c in cs:
-                c.wait_for(lambda l: " 221 " in l, tmo=6)
-            names = {}
-            for k, c in enumerate(cs):
-                names[c] = nick if c in welcomed[:1] else "r%d_%d" % (rd, k)
-            # B. simultaneous first JOINs: one channel, one founder
-            ch = "#race%d" % rd
-            for c in cs:
-                c.send("JOIN %s\r\n" % ch)
-            pump_all(cs, quiet=0.3, tmo=6.0)
-            w = cs[0]
-            n0 = len(w.lines)
-            w.send("NAMES %s\r\n" % ch)
-            w.wait_for(lambda l: " 366 " in l and ch in l, start=n0)
-            members = [x for l in w.lines[n0:] if " 353 " in l for x in l.split(" :", 1)[1].split()]
-            founders = [m for m in members if m.startswith("~")]
-            stats["first_joins"] += N
-            if len(members) != N or len(founders) != 1:
-                bad("%d simultaneous first JOINs of %s leave %d members and %d founders (%d members, one founder expected)" % (N, ch, len(members), len(founders), N),
-                    {"round": rd, "names": members})
-            # C. a +l limit is never exceeded
-            lim = "#lim%d" % rd
-            for c in cs:
-                c.send("JOIN %s\r\n" % lim)
-            pump_all(cs, quiet=0.3, tmo=6.0)
-            n0 = len(w.lines)
-            w.send("NAMES %s\r\n" % lim)
-            w.wait_for(lambda l: " 366 " in l and lim in l, start=n0)
-            inside = [x for l in w.lines[n0:] if " 353 " in l for x in l.split(" :", 1)[1].split()]
-            full = sum(1 for c in cs if any(" 471 " in l and lim in l for l in c.lines))
-            stats["limit_joins"] += N
-            if (len(inside) != 3 and w not in [c for c in cs if any(l.startswith(":") and " JOIN " in l and lim in l for l in c.lines)]) or len(inside) > 3:
-                bad("%d simultaneous JOINs of %s (+l 3) leave %d members" % (N, lim, len(inside)), {"round": rd, "names": inside})
-            joined_lim = sum(1 for c in cs if any(re.match(r"^:%s!\S+ JOIN %s$" % (re.escape(names[c]), re.escape(lim)), l) for l in c.lines))
-            if joined_lim > 3 or joined_lim + full != N:
-                bad("JOIN %s (+l 3) by %d users at once: %d admitted, %d refused with 471" % (lim, N, joined_lim, full), {"round": rd})
-            # D. order: pipelined commands of every connection, sequence numbers on every socket
-            K = 12
-            ordc = cs[:8]
-            for c in ordc:
-                c.lines = []
-            for c in ordc:
-                c.send("".join("PRIVMSG %s :%s-%d\r\nPING p%d\r\n" % (ch, names[c], n, n) for n in range(K)))
-            pump_all(cs, quiet=0.4, tmo=8.0)
-            stats["ordered_messages"] += len(ordc) * K
-            for c in ordc:
-                toks = [l.rsplit(":", 1)[1] for l in c.lines if " PONG " in l]
-                if toks != ["p%d" % n for n in range(K)]:
-                    bad("replies to one connection's pipelined PINGs arrive as %r" % (toks,), {"round": rd})
-            for rc in cs:
-                per = collections.defaultdict(list)
-                for l in rc.lines:
-                    m = re.match(r"^:([^! ]+)!\S+ PRIVMSG %s :(\S+)-(\d+)$" % re.escape(ch), l)
-                    if m and m.group(1) == m.group(2):
-                        per[m.group(1)].append(int(m.group(3)))
-                for snd in ordc:
-                    if snd is rc:
-                        continue
-                    got = per.get(names[snd], [])
-                    if rc in ordc and got and got != list(range(K)) or (rc not in ordc and got != list(range(K))):
-                        if got != list(range(K)):
-                            bad("messages from %s reach %s as sequence %r (0..%d in order expected)" % (names[snd], names[rc], got, K - 1), {"round": rd})
-            # G. a client that pipelines long queries and never reads must not stall anybody else
-            if rd == 0:
-                import fcntl, termios, struct
-                ls_ = socket.socket()
-                ls_.setsockopt(socket.SOL_SOCKET, socket.SO_RCVBUF, 4096)
-                ls_.connect(("127.0.0.1", port))
-                ls_.sendall(b"NICK lazy\r\nUSER l 8 * :l\r\n")
-                _time.sleep(0.3)
-                w.send("".join("JOIN #pub%d\r\n" % k for k in range(80)))
-                pump_all([w], quiet=0.3, tmo=5.0)
-                blob = ("LIST\r\nNAMES\r\nWHO *\r\n" * 6000).encode()
-                ls_.setblocking(False)
-                sent = 0
-                t0 = _time.time()
-                while sent < len(blob) and _time.time() - t0 < 3.0:
-                    try:
-                        sent += ls_.send(blob[sent:sent + 65536])
-                    except (BlockingIOError, OSError):
-                        _time.sleep(0.01)
-                # wait until the server has stopped writing to the lazy socket (its kernel buffers are full)
-                def queued():
-                    try:
-                        return struct.unpack("i", fcntl.ioctl(ls_.fileno(), termios.FIONREAD, b"\0\0\0\0"))[0]
-                    except OSError:
-                        return -1
-                last, since = -2, _time.time()
-                t0 = _time.time()
-                while _time.time() - t0 < 8.0:
-                    q = queued()
-                    if q != last:
-                        last, since = q, _time.time()
-                    elif _time.time() - since > 0.8 and q > 0:
-                        break
-                    _time.sleep(0.05)
-                stats["lazy_reader_requests_bytes"] = sent
-                stats["lazy_reader_unread_bytes"] = max(last, 0)
-                probes = cs[:6]
-                marks = {c: len(c.lines) for c in probes}
-                for c in probes:
-                    c.send("JOIN #lz%d\r\nPING lazy%d\r\n" % (rd, rd))
-                for c in probes:
-                    if not c.wait_for(lambda l: l.endswith(":lazy%d" % rd), tmo=8, start=marks[c]) or \
-                       not any(" JOIN #lz%d" % rd in l for l in c.lines[marks[c]:]):
-                        bad("while one client pipelines long queries without reading its socket, another connection's JOIN is not carried out / answered", {"round": rd, "nick": names[c]})
-                        break
-                n1 = BConn(port)
-                n1.send("NICK fresh%d\r\nUSER f 8 * :f\r\n" % rd)
-                if not n1.wait_for(lambda l: " 001 " in l, tmo=8):
-                    bad("while one client pipelines long queries without reading its socket, a new connection cannot register", {"round": rd})
-                n1.close()
-                try:
-                    ls_.close()
-                except OSError:
-                    pass
-            # E. every live connection is still served
-            for c in cs:
-                c.send("PING alive%d\r\n" % rd)
-            for c in cs:
-                if not c.wait_for(lambda l: l.endswith(":alive%d" % rd), tmo=6):
-                    bad("a connection is not answered after the burst", {"round": rd, "nick": names[c]})
-                    break
-            # F. consistency of the three views after quiescence
-            n0 = len(w.lines)
-            w.send("WHO %s\r\n" % ch)
-            w.wait_for(lambda l: " 315 " in l, start=n0)
-            who = sorted(l.split(" ")[7] for l in w.lines[n0:] if " 352 " in l)
-            if who != sorted(m.lstrip("~&@%+") for m in members):
-                bad("after simultaneous JOINs NAMES and WHO of %s disagree" % ch, {"names": members, "who": who})
-            if rd < rounds - 1:
-                for c in cs:
-                    c.send("QUIT\r\n")
-                    c.close()
-            else:
-                everyone = cs
-        for c in everyone:
-            c.close()
-    except Exception:
-        res.violation("the burst harness failed", {"traceback": traceback.format_exc()}, found=False)
-    finally:
-        stop_hogs.set()
+    def burst(rr):
+        rounds = 6 if res.tier == "quick" else 60
+        N = 24
+        stats = collections.Counter()
+        d = dict(name="irc.irc", admin_info="A", info="I", motd="M", network="N", operators=[dict(name="admin", password=irc.pw_hash("operpass"))])
+        port = free_port()
+        path = os.path.join(irc.BUILD, "scratch", "c18-%d.toml" % port)
+        toml = c20_toml(dict(d, port=port)) + "".join(
+            '[[channels]]\nname = "#lim%d"\n[channels.modes]\ninvite_only = false\nmoderated = false\nsecret = false\nprotected_topic = false\nno_external_messages = false\nclient_limit = 3\n' % k
+            for k in range(rounds))
+        open(path, "w").write(toml)
+        proc = subprocess.Popen([SERVER_BIN, "-c", path], stdout=subprocess.DEVNULL, stderr=subprocess.PIPE)
+        t0 = _time.time()
+        while _time.time() - t0 < 4:
+            try:
+                socket.create_connection(("127.0.0.1", port), timeout=0.2).close()
+                break
+            except OSError:
+                _time.sleep(0.03)
+        found = []
+
+        def bad(what, detail):
+            found.append(what)
+            if len(found) <= 4:
+                rr.violation(what, dict({"kind": "burst"}, **detail), found=True)
+        stop_hogs = threading.Event()
+
+        def hog(k):
+            # ordinary clients that keep the state lock busy, so that waiting acquisitions are granted together
+            try:
+                c = BConn(port)
+                c.send("NICK hog%d\r\nUSER h 8 * :h\r\n" % k)
+                c.wait_for(lambda l: " 221 " in l)
+                i = 0
+                while not stop_hogs.is_set():
+                    i += 1
+                    c.send("".join("JOIN #h%d_%d\r\nPART #h%d_%d\r\n" % (k, j, k, j) for j in range(20)))
+                    c.pump(0.01)
+                    c.lines = c.lines[-50:]
+                c.close()
+            except Exception:
+                pass
+        hogs = [threading.Thread(target=hog, args=(k,)) for k in range(4)]
         for h in hogs:
-            h.join(timeout=5)
-        proc.kill()
-        err = b""
+            h.start()
         try:
-            err = proc.communicate(timeout=3)[1] or b""
+            everyone = []
+            for rd in range(rounds):
+                # A. simultaneous claims to one nickname
+                nick = "racer%d" % rd
+                cs = [BConn(port) for _ in range(N)]
+                for c in cs:
+                    c.send("NICK %s\r\n" % nick)
+                pump_all(cs, quiet=0.1, tmo=1.0)
+                for c in cs:
+                    c.send("USER u 8 * :u\r\n")
+                for c in cs:
+                    c.wait_for(lambda l: " 001 " in l or " 433 " in l, tmo=6)
+                pump_all(cs, quiet=0.15, tmo=2.0)
+                welcomed = [c for c in cs if any(" 001 " in l for l in c.lines)]
+                refused = [c for c in cs if any(" 433 " in l for l in c.lines)]
+                stats["nick_claims"] += N
+                if len(welcomed) != 1 or len(welcomed) + len(refused) != N:
+                    bad("of %d simultaneous claims to the nickname %s, %d were welcomed and %d refused (exactly one must win)" % (N, nick, len(welcomed), len(refused)),
+                        {"round": rd, "sample": [c.lines[:3] for c in cs[:4]]})
+                # the losers register under their own names and everybody joins one new channel at once
+                for k, c in enumerate(cs):
+                    if c not in welcomed:
+                        c.send("NICK r%d_%d\r\n" % (rd, k))
+                for c in cs:
+                    c.wait_for(lambda l: " 221 " in l, tmo=6)
+                names = {}
+                for k, c in enumerate(cs):
+                    names[c] = nick if c in welcomed[:1] else "r%d_%d" % (rd, k)
+                # B. simultaneous first JOINs: one channel, one founder
+                ch = "#race%d" % rd
+                for c in cs:
+                    c.send("JOIN %s\r\n" % ch)
+                pump_all(cs, quiet=0.3, tmo=6.0)
+                w = cs[0]
+                n0 = len(w.lines)
+                w.send("NAMES %s\r\n" % ch)
+                w.wait_for(lambda l: " 366 " in l and ch in l, start=n0)
+                members = [x for l in w.lines[n0:] if " 353 " in l for x in l.split(" :", 1)[1].split()]
+                founders = [m for m in members if m.startswith("~")]
+                stats["first_joins"] += N
+                if len(members) != N or len(founders) != 1:
+                    bad("%d simultaneous first JOINs of %s leave %d members and %d founders (%d members, one founder expected)" % (N, ch, len(members), len(founders), N),
+                        {"round": rd, "names": members})
+                # C. a +l limit is never exceeded
+                lim = "#lim%d" % rd
+                for c in cs:
+                    c.send("JOIN %s\r\n" % lim)
+                pump_all(cs, quiet=0.3, tmo=6.0)
+                n0 = len(w.lines)
+                w.send("NAMES %s\r\n" % lim)
+                w.wait_for(lambda l: " 366 " in l and lim in l, start=n0)
+                inside = [x for l in w.lines[n0:] if " 353 " in l for x in l.split(" :", 1)[1].split()]
+                full = sum(1 for c in cs if any(" 471 " in l and lim in l for l in c.lines))
+                stats["limit_joins"] += N
+                if (len(inside) != 3 and w not in [c for c in cs if any(l.startswith(":") and " JOIN " in l and lim in l for l in c.lines)]) or len(inside) > 3:
+                    bad("%d simultaneous JOINs of %s (+l 3) leave %d members" % (N, lim, len(inside)), {"round": rd, "names": inside})
+                joined_lim = sum(1 for c in cs if any(re.match(r"^:%s!\S+ JOIN %s$" % (re.escape(names[c]), re.escape(lim)), l) for l in c.lines))
+                if joined_lim > 3 or joined_lim + full != N:
+                    bad("JOIN %s (+l 3) by %d users at once: %d admitted, %d refused with 471" % (lim, N, joined_lim, full), {"round": rd})
+                # D. order: pipelined commands of every connection, sequence numbers on every socket
+                K = 12
+                ordc = cs[:8]
+                for c in ordc:
+                    c.lines = []
+                for c in ordc:
+                    c.send("".join("PRIVMSG %s :%s-%d\r\nPING p%d\r\n" % (ch, names[c], n, n) for n in range(K)))
+                pump_all(cs, quiet=0.4, tmo=8.0)
+                stats["ordered_messages"] += len(ordc) * K
+                for c in ordc:
+                    toks = [l.rsplit(":", 1)[1] for l in c.lines if " PONG " in l]
+                    if toks != ["p%d" % n for n in range(K)]:
+                        bad("replies to one connection's pipelined PINGs arrive as %r" % (toks,), {"round": rd})
+                for rc in cs:
+                    per = collections.defaultdict(list)
+                    for l in rc.lines:
+                        m = re.match(r"^:([^! ]+)!\S+ PRIVMSG %s :(\S+)-(\d+)$" % re.escape(ch), l)
+                        if m and m.group(1) == m.group(2):
+                            per[m.group(1)].append(int(m.group(3)))
+                    for snd in ordc:
+                        if snd is rc:
+                            continue
+                        got = per.get(names[snd], [])
+                        if rc in ordc and got and got != list(range(K)) or (rc not in ordc and got != list(range(K))):
+                            if got != list(range(K)):
+                                bad("messages from %s reach %s as sequence %r (0..%d in order expected)" % (names[snd], names[rc], got, K - 1), {"round": rd})
+                # G. a client that pipelines long queries and never reads must not stall anybody else
+                if rd == 0:
+                    import fcntl, termios, struct
+                    ls_ = socket.socket()
+                    ls_.setsockopt(socket.SOL_SOCKET, socket.SO_RCVBUF, 4096)
+                    ls_.connect(("127.0.0.1", port))
+                    ls_.sendall(b"NICK lazy\r\nUSER l 8 * :l\r\n")
+                    _time.sleep(0.3)
+                    w.send("".join("JOIN #pub%d\r\n" % k for k in range(80)))
+                    pump_all([w], quiet=0.3, tmo=5.0)
+                    blob = ("LIST\r\nNAMES\r\nWHO *\r\n" * 6000).encode()
+                    ls_.setblocking(False)
+                    sent = 0
+                    t0 = _time.time()
+                    while sent < len(blob) and _time.time() - t0 < 3.0:
+                        try:
+                            sent += ls_.send(blob[sent:sent + 65536])
+                        except (BlockingIOError, OSError):
+                            _time.sleep(0.01)
+                    # wait until the server has stopped writing to the lazy socket (its kernel buffers are full)
+                    def queued():
+                        try:
+                            return struct.unpack("i", fcntl.ioctl(ls_.fileno(), termios.FIONREAD, b"\0\0\0\0"))[0]
+                        except OSError:
+                            return -1
+                    last, since = -2, _time.time()
+                    t0 = _time.time()
+                    while _time.time() - t0 < 8.0:
+                        q = queued()
+                        if q != last:
+                            last, since = q, _time.time()
+                        elif _time.time() - since > 0.8 and q > 0:
+                            break
+                        _time.sleep(0.05)
+                    stats["lazy_reader_requests_bytes"] = sent
+                    stats["lazy_reader_unread_bytes"] = max(last, 0)
+                    probes = cs[:6]
+                    marks = {c: len(c.lines) for c in probes}
+                    for c in probes:
+                        c.send("JOIN #lz%d\r\nPING lazy%d\r\n" % (rd, rd))
+                    for c in probes:
+                        if not c.wait_for(lambda l: l.endswith(":lazy%d" % rd), tmo=8, start=marks[c]) or \
+                           not any(" JOIN #lz%d" % rd in l for l in c.lines[marks[c]:]):
+                            bad("while one client pipelines long queries without reading its socket, another connection's JOIN is not carried out / answered", {"round": rd, "nick": names[c]})
+                            break
+                    n1 = BConn(port)
+                    n1.send("NICK fresh%d\r\nUSER f 8 * :f\r\n" % rd)
+                    if not n1.wait_for(lambda l: " 001 " in l, tmo=8):
+                        bad("while one client pipelines long queries without reading its socket, a new connection cannot register", {"round": rd})
+                    n1.close()
+                    try:
+                        ls_.close()
+                    except OSError:
+                        pass
+                # H. fan-out while the state lock is held (OPER verifies its password under the write lock) and a
+                #    member leaves: every remaining member gets every message exactly once
+                if rd == 1:
+                    fan = "#fan%d" % rd
+                    snd = cs[0]
+                    listeners = cs[1:9]
+                    opers_ = cs[9:13]
+                    quitters = [BConn(port) for _ in range(6)]
+                    for k3, q in enumerate(quitters):
+                        q.send("NICK quit%d\r\nUSER q 8 * :q\r\n" % k3)
+                    for q in quitters:
+                        q.wait_for(lambda l: " 221 " in l)
+                    for c in [snd] + listeners + quitters:
+                        c.send("JOIN %s\r\n" % fan)
+                    pump_all(cs + quitters, quiet=0.3, tmo=5.0)
+                    marks = {c: len(c.lines) for c in listeners}
+                    for k3, q in enumerate(quitters):
+                        for oc in opers_:
+                            oc.send("OPER admin operpass\r\n")
+                        _time.sleep(0.02)
+                        snd.send("PRIVMSG %s :fan-%d\r\n" % (fan, k3))
+                        q.send("QUIT :bye\r\n")
+                        _time.sleep(0.35)
+                    pump_all(cs + quitters, quiet=0.5, tmo=8.0)
+                    stats["fanout_messages"] += len(quitters) * len(listeners)
+                    for c in listeners:
+                        got = [l.rsplit(":fan-", 1)[1] for l in c.lines[marks[c]:] if " PRIVMSG %s :fan-" % fan in l]
+                        if sorted(got) != [str(k3) for k3 in range(len(quitters))]:
+                            bad("a channel message sent while a member was leaving and the state lock was held reached %s as %r (each of fan-0..fan-%d exactly once expected)" % (
+                                names[c], got, len(quitters) - 1), {"round": rd})
+                            break
+                    for q in quitters:
+                        q.close()
+                # E. every live connection is still served
+                for c in cs:
+                    c.send("PING alive%d\r\n" % rd)
+                for c in cs:
+                    if not c.wait_for(lambda l: l.endswith(":alive%d" % rd), tmo=6):
+                        bad("a connection is not answered after the burst", {"round": rd, "nick": names[c]})
+                        break
+                # F. consistency of the three views after quiescence
+                n0 = len(w.lines)
+                w.send("WHO %s\r\n" % ch)
+                w.wait_for(lambda l: " 315 " in l, start=n0)
+                who = sorted(l.split(" ")[7] for l in w.lines[n0:] if " 352 " in l)
+                if who != sorted(m.lstrip("~&@%+") for m in members):
+                    bad("after simultaneous JOINs NAMES and WHO of %s disagree" % ch, {"names": members, "who": who})
+                if rd < rounds - 1:
+                    for c in cs:
+                        c.send("QUIT\r\n")
+                        c.close()
+                else:
+                    everyone = cs
+            for c in everyone:
+                c.close()
         except Exception:
-            pass
-        try:
-            os.remove(path)
-        except OSError:
-            pass
-    if b"panicked" in err:
-        res.violation("a server task aborted during the burst: %s" % err.decode("utf-8", "replace")[-300:], {"kind": "burst"}, found=True)
+            rr.violation("the burst harness failed", {"traceback": traceback.format_exc()}, found=False)
+        finally:
+            stop_hogs.set()
+            for h in hogs:
+                h.join(timeout=5)
+            proc.kill()
+            err = b""
+            try:
+                err = proc.communicate(timeout=3)[1] or b""
+            except Exception:
+                pass
+            try:
+                os.remove(path)
+            except OSError:
+                pass
+        if b"panicked" in err:
+            rr.violation("a server task aborted during the burst: %s" % err.decode("utf-8", "replace")[-300:], {"kind": "burst"}, found=True)
+        return stats, found, rounds, N
+
+    # the bursts depend on wall-clock waits: an objection is believed only if the same kind of objection is raised
+    # again when the whole burst part is run a second time
+    first = _Collect()
+    stats, found, rounds, N = burst(first)
+    burst_rerun = 0
+    if first.violations:
+        burst_rerun = len(first.violations)
+        sig = lambda v: re.sub(r"\d+", "#", v["what"])[:60]
+        second = _Collect()
+        stats, found, rounds, N = burst(second)
+        seen = set(sig(v) for v in first.violations)
+        kept = [v for v in second.violations if sig(v) in seen]
+        res.violations.extend(kept)
+        found = [v["what"] for v in kept]
     if sdiff and not found:
         res.violation("the lock structure of the handlers differs from the one the model's atomicity assumption was read from: %s" % json.dumps(sdiff),
                       {"kind": "lock_shape", "diff": sdiff, "note": "inventory/lock_shape.json; each model step is one critical section only if check and update share one acquisition"},
@@ -4194,9 +4347,9 @@ def check_C18(res):
         "evaluations": sum(stats.values()) + r["steps"], "distinct_nontrivial": rounds * 5 + r["traces"],
         "rule": "burst scenarios against the real multi-threaded binary, with 4 bystanders keeping the state lock contended: per round %d connections claim one nickname at the same moment (exactly one 001, "
                 "the rest 433), all JOIN one new channel at once (all members, exactly one founder), all JOIN a +l 3 channel at once (3 admitted, the rest 471), 8 of them pipeline 12 numbered PRIVMSG/PING pairs "
-                "(PONG tokens in order on each socket; per sender->receiver pair the sequence 0..11 in order), every connection answers PING afterwards, NAMES and WHO agree, and (first round) a client that pipelines 12000 LIST/NAMES/WHO queries over 80 channels without ever reading its socket must not keep others from being answered or registering; %d rounds; plus the scan of "
+                "(PONG tokens in order on each socket; per sender->receiver pair the sequence 0..11 in order), every connection answers PING afterwards, NAMES and WHO agree, (second round) 6 numbered channel messages sent while four connections keep OPER (password check under the write lock) busy and a member quits - each remaining member gets each exactly once; and (first round) a client that pipelines 12000 LIST/NAMES/WHO queries over 80 channels without ever reading its socket must not keep others from being answered or registering; %d rounds; plus the scan of "
                 "lock acquisitions per handler against inventory/lock_shape.json; plus %d sequential histories against the model" % (N, rounds, r["traces"]),
-        "traces_validated_against_impl": r["traces"], "burst": dict(stats), "lock_shape_functions": len(shape), "lock_shape_diff": sdiff,
+        "traces_validated_against_impl": r["traces"], "burst": dict(stats), "lock_shape_functions": len(shape), "lock_shape_diff": sdiff, "burst_objections_rerun": burst_rerun,
         "samples": [{"round": 0, "claims": N, "channel": "#race0", "limit_channel": "#lim0"}],
         "l2": r["summary"]})
     res.assumptions = ["real schedules are sampled, not enumerated: the burst scenarios support the theorems about the section structure, they do not replace them",
